@@ -26,27 +26,43 @@ def _pick(options, name):
     return options[i]
 
 
+def _input(kind):
+    """bal4 with its mutations / with its sites but no mutation / without sites"""
+    ts = SK.bal4()
+    if kind == "muts":
+        return ts
+    t = ts.dump_tables()
+    t.mutations.clear()
+    if kind == "no_sites":
+        t.sites.clear()
+    return t.tree_sequence()
+
+
 def h_validate_vg(ctx):
     """date(method='variational_gamma' | None): every path with an invalid parameter ends in
     ValueError/NotImplementedError before the numeric engine starts; no other exception."""
     from symx import load
     from symx.dom import sym, Q, is_sym
     core = load.tsdate_module("core")
-    ts = SK.bal4()
+    inp = _pick(["muts", "sites_no_muts", "no_sites"], "inp")
+    ts = _input(inp)
+    # inputs without mutations are crossed with the method only, not with every parameter
+    # (the parameter checks do not depend on the input): keeps the quick tier quick
+    pick = _pick if inp == "muts" else (lambda options, name: options[0])
     with ep_h.patched_ep(more=("rescaling", "phasing", "util", "core")) as (var, approx, npx):
-        mu = _pick(["sym", math.nan, math.inf, None], "mu")
+        mu = pick(["sym", math.nan, math.inf, None], "mu")
         mu = sym("mu") if mu == "sym" else mu
-        mbl = _pick([None, "sym", math.inf, math.nan], "mbl")
+        mbl = pick([None, "sym", math.inf, math.nan], "mbl")
         mbl = sym("mbl") if mbl == "sym" else mbl
-        ci = _pick([None, 0, 2, -1, 1.5], "ci")
-        mi = _pick([None, 3, 0, -2], "mi")
-        ms = _pick([None, "sym"], "ms")
+        ci = pick([None, 0, 2, -1, 1.5], "ci")
+        mi = pick([None, 3, 0, -2], "mi")
+        ms = pick([None, "sym"], "ms")
         ms = sym("max_shape") if ms == "sym" else ms
-        eps = _pick([None, 1e-6], "eps")
-        pop = _pick([None, 10], "pop")
-        rec = _pick([None, 1.0], "rec")
-        rfit = _pick([None, True], "rfit")
-        rlik = _pick([None, True], "rlik")
+        eps = pick([None, 1e-6], "eps")
+        pop = pick([None, 10], "pop")
+        rec = pick([None, 1.0], "rec")
+        rfit = pick([None, True], "rfit")
+        rlik = pick([None, True], "rlik")
         method = _pick([None, "variational_gamma"], "method")
         started = []
         saved_infer = var.ExpectationPropagation.infer
@@ -78,15 +94,18 @@ def h_validate_vg(ctx):
             var.ExpectationPropagation.infer = saved_infer
             core.EstimationMethod.get_modified_ts = saved_gmt
     ctx.prove("validate:no_internal_error", not outcome.startswith("crash"),
-              detail={"outcome": outcome, "kw": {k: repr(v) for k, v in kw.items()}})
+              detail={"outcome": outcome, "input": inp, "kw": {k: repr(v) for k, v in kw.items()}})
     if outcome == "rejected":
-        ctx.prove("validate:rejected_before_engine", not started)
+        ctx.prove("validate:rejected_before_engine", not started,
+                  detail={"input": inp, "kw": {k: repr(v) for k, v in kw.items()}})
         ctx.tag("rejected")
         return
     if outcome != "returned":
         return
     ctx.tag("returned")
     # everything the statement lists as invalid must be impossible on a returning path
+    ctx.prove("validate:input_without_mutations_rejected", inp == "muts",
+              detail={"input": inp, "kw": {k: repr(v) for k, v in kw.items()}})
     ctx.prove("validate:mutation_rate_positive_finite",
               (mu > 0) if is_sym(mu) else (mu is not None and mu == mu and 0 < mu < math.inf),
               detail={"mu": repr(mu)})
@@ -366,7 +385,7 @@ def replay(payload):
             return True, (f"tsdate.date on cat3 with {ts.num_mutations} mutation(s), "
                           f"rescaling_intervals={kw['intervals']} raised {type(e).__name__}: {e}")
         return False, "returned"
-    ts = SK.bal4()
+    ts = _input(d.get("input", "muts")) if case.startswith("validate:variational") else SK.bal4()
     kw = {}
     raw = (d.get("kw") or {})
     conv = {"None": None, "nan": math.nan, "inf": math.inf, "True": True}
@@ -393,6 +412,8 @@ def replay(payload):
     except Exception as e:
         return True, f"date(bal4, {kw}) raised {type(e).__name__}: {str(e)[:120]}"
     bad = []
+    if case.startswith("validate:variational") and ts.num_mutations == 0:
+        bad.append("input without mutations accepted by variational_gamma")
     if "mutation_rate" in kw and not (kw["mutation_rate"] is not None and kw["mutation_rate"] > 0
                                       and math.isfinite(kw["mutation_rate"])):
         bad.append("invalid mutation_rate accepted")
